@@ -62,6 +62,19 @@ type Job struct {
 type dec struct {
 	K   int    `json:"k"`
 	Val uint64 `json:"v,omitempty"`
+	W   string `json:"w,omitempty"` // what was decided (kind of choice point); lets the concrete replay skip data decisions it does not meet
+}
+
+// isDataDecision: decisions on symbolic data (branches, pointer targets, concretised values). A concrete replay (all
+// inputs substituted) meets none of the branch/concretise ones and only some of the pointer ones; scheduling, map-order,
+// pool and vChoice decisions are met by every run.
+func isDataDecision(w string) bool {
+	for _, p := range []string{"sched:", "preempt:", "choice:", "maporder", "pool.reuse"} {
+		if strings.HasPrefix(w, p) {
+			return false
+		}
+	}
+	return w != ""
 }
 
 type nondetRec struct {
@@ -219,6 +232,22 @@ func (r *Run) addPC(in *Interp, c *Term) {
 // choose picks one of the alternatives (conds[i] == nil means unconditional).
 func (r *Run) choose(in *Interp, conds []*Term, what string) int {
 	pos := len(r.decisions)
+	if r.replayVals != nil {
+		// concrete replay: skip the recorded data decisions this run does not meet (its branches are constant)
+		for pos < len(r.prefix) && r.prefix[pos].W != what && isDataDecision(r.prefix[pos].W) {
+			r.decisions = append(r.decisions, r.prefix[pos])
+			r.whats = append(r.whats, r.prefix[pos].W)
+			pos++
+		}
+		if pos < len(r.prefix) && r.prefix[pos].W != what && r.prefix[pos].W != "" && isDataDecision(what) {
+			// a data choice the recorded run did not have to make here (e.g. a pointer whose guards are concrete now)
+			for i, c := range conds {
+				if c == nil || c.IsTrue() {
+					return i
+				}
+			}
+		}
+	}
 	if pos < len(r.prefix) {
 		d := r.prefix[pos]
 		if d.K >= len(conds) {
@@ -233,7 +262,7 @@ func (r *Run) choose(in *Interp, conds []*Term, what string) int {
 		// interpretive replay past the recorded decisions: conditions are concrete, follow the true one
 		for i, c := range conds {
 			if c == nil || c.IsTrue() {
-				r.decisions = append(r.decisions, dec{K: i})
+				r.decisions = append(r.decisions, dec{K: i, W: what})
 				r.whats = append(r.whats, what)
 				return i
 			}
@@ -275,11 +304,11 @@ func (r *Run) choose(in *Interp, conds []*Term, what string) int {
 		r.forks++
 		base := append([]dec(nil), r.decisions...)
 		for _, k := range feas[1:] {
-			r.ex.push(append(append([]dec(nil), base...), dec{K: k}))
+			r.ex.push(append(append([]dec(nil), base...), dec{K: k, W: what}))
 		}
 	}
 	k := feas[0]
-	r.decisions = append(r.decisions, dec{K: k})
+	r.decisions = append(r.decisions, dec{K: k, W: what})
 	r.whats = append(r.whats, what)
 	r.addPC(in, conds[k])
 	return k
@@ -335,10 +364,10 @@ func (r *Run) concretise(in *Interp, t *Term, what string) uint64 {
 		r.forks++
 		base := append([]dec(nil), r.decisions...)
 		for i, v := range vals[1:] {
-			r.ex.push(append(append([]dec(nil), base...), dec{K: i + 1, Val: v}))
+			r.ex.push(append(append([]dec(nil), base...), dec{K: i + 1, Val: v, W: "conc:" + what}))
 		}
 	}
-	r.decisions = append(r.decisions, dec{K: 0, Val: vals[0]})
+	r.decisions = append(r.decisions, dec{K: 0, Val: vals[0], W: "conc:" + what})
 	r.whats = append(r.whats, "conc:"+what)
 	r.addPC(in, in.tb.Eq(t, in.tb.Const(t.w, vals[0])))
 	return vals[0]
